@@ -267,6 +267,9 @@ func checkC15(w *World) {
 	// the root is its own parent with position 0: the evaluator's root tests and the store's surplus-end handling rely on it
 	w.include(P, "C10", "R10.7")
 	w.include(P, "C09", "R09.5") // an unknown or undecodable encoding label is an error of the charset reader, not a nil reader handed to the decoder
+	// no package-level state is written by the entry points: an unsynchronised cache (a plain map) written by Exec or
+	// Unmarshal aborts the whole process with "concurrent map writes", which no recover() can turn into an error
+	w.include(P, "C13", "R13.2")
 }
 
 // adapterError: the decoder's error is returned with a nil node under err != nil.
@@ -1444,6 +1447,9 @@ func checkC19(w *World) {
 		w.undecided(P, "R19.6", "reflect.Value.Set", um.Pos(), "no Set call reached from Unmarshal")
 	}
 	w.floorSites(P, "R19.6", 2)
+	// each field is filled from its own tag: nothing is remembered between calls (a cache of compiled tags keyed by
+	// anything coarser than the type identity hands one type the queries of another)
+	w.include(P, "C13", "R13.1", "R13.2")
 }
 
 // freshOrGivenValue: v (a reflect.Value) is a parameter, a Field/Index of such a value, the Elem() of a reflect.New
